@@ -408,6 +408,11 @@ def run(ctx):
                 rv = st[1]
                 if rv[0] == "cast" and rv[1] == "FloatToInt" and rv[3] in ("usize", "u64", "u32"):
                     fx = fx or FlowCx(P, f)
+                    # bounded where it is used (`.min(len - 1)` on the converted value): nothing to ask of the producers
+                    dst = st[0][0]
+                    if any(callee_name(t2).split("::")[-1] in ("min", "clamp") and
+                           any(a[0] in ("m", "c") and a[1] and a[1][0] == dst for a in t2["args"]) for _b2, t2 in f.calls()):
+                        continue
                     for tg in fx.tags(rv[2]):
                         if tg.startswith("cell:") and "." in tg:
                             owner, fld = tg[5:].rsplit(".", 1)
